@@ -86,7 +86,9 @@ class Gen:
             if allow_filter and rng.random() < 0.2:
                 # filters after a nested-template string apply to the RESULT of the nested template
                 self.features.add("dynamic-string-with-filters")
-                return self.filtered(d)
+                # (not escape / safe: whether the VALUE of a nested template counts as already-safe text is not part
+                # of "the value it denotes" - the library hands over a plain str for a lone text node)
+                return self.filtered(d, exclude=("escape", "safe"))
             return d
         else:
             base = self.literal()
@@ -106,12 +108,14 @@ class Gen:
             return rng.choice([["str", [":", "2"]], ["str", ["1", ":"]]])
         return self.literal() if rng.random() < 0.7 else ["var", rng.choice(VARS_ANY)]
 
-    def filtered(self, base, allow_args=True):
+    def filtered(self, base, allow_args=True, exclude=()):
         rng = self.rng
         self.features.add("filter")
         chain = []
         for _ in range(rng.choice([1, 1, 2, 3])):
             name, kind = rng.choice(FILTERS)
+            if name in exclude:
+                continue
             if kind is None:
                 chain.append([name, None])
             elif allow_args:
